@@ -49,13 +49,18 @@ THEOREMS = [
     "Scenic.C11.accept_iff_partial",
     "Scenic.C11.accept_iff_final_fragment",
     "Scenic.C11.accept_iff_shifted_partial",
-    "Scenic.C11.runtime_setup_accept_iff_partial",
-    "Scenic.C11.runtime_setup_accept_iff_no_implies",
-    "Scenic.C11.runtime_implies_witness",
     "Scenic.C11.early_reject_hopeless_partial",
     "Scenic.C11.scene_check_consistent",
-    "Scenic.C11.dynamic_require_monitored",
-    "Scenic.C11.dynamic_require_witness",
+    "Scenic.C11.runtime_setup_accept_iff_partial",
+    "Scenic.C11.dynamic_require_monitored_partial",
+    "Scenic.C11.dynamic_require_same_checks",
+    "Scenic.C11.dynamic_early_reject_hopeless_partial",
+    "Scenic.C11.runtime_values_truth_only",
+    "Scenic.C11.monitor_sees_truth_values",
+    "Scenic.C11.scenario_accept_decomposes",
+    "Scenic.C11.scenario_reject_culprit",
+    "Scenic.C11.scenario_accept_iff_partial",
+    "Scenic.C11.scenario_early_reject_hopeless_partial",
     "Scenic.LTL.verdict_iff_sat_all",
     "Scenic.LTL.verdict_iff_sat_zero",
     "Scenic.LTL.definite_final_all",
@@ -67,15 +72,22 @@ THEOREMS = [
     "Scenic.LTL.eventually_prop_true_immediate",
     "Scenic.LTL.okZero_mono",
     "Scenic.LTL.immediate_eq_run",
+    "Scenic.LTL.runRegistered_eq_run",
+    "Scenic.LTL.runImmediateV_eq",
+    "Scenic.LTL.loop_accepted_iff",
+    "Scenic.LTL.loop_rejected",
+    "Scenic.LTL.simulate_accepted_iff",
+    "Scenic.LTL.simulate_rejected_culprit",
     "Scenic.C11.Syntax.precedence_chain",
-    "Scenic.C11.Syntax.doc_examples_partial",
-    "Scenic.C11.Syntax.doc_examples_full",
-    "Scenic.C11.Syntax.doc_example_group_before_implies_witness",
-    "Scenic.C11.Syntax.repaired_grammar_ok",
+    "Scenic.C11.Syntax.doc_examples",
+    "Scenic.C11.Syntax.group_lookahead_needed",
 ]
 SIDE = [
     "Scenic.C11.gen_rule_canonical",
     "Scenic.C11.gen_init_last",
+    "Scenic.C11.gen_runtime_canonical",
+    "Scenic.C11.gen_atom_coerced",
+    "Scenic.C11.gen_eval_forms_canonical",
     "Scenic.C11.gen_ctor_map_canonical",
     "Scenic.C11.gen_temporal_classes",
     "Scenic.C11.gen_sugar_canonical",
@@ -99,6 +111,9 @@ FINGERPRINTS = {
     "_bindTo": ("src/scenic/core/dynamics/scenarios.py", "DynamicScenario._bindTo"),
     "_addDynamicRequirement": ("src/scenic/core/dynamics/scenarios.py", "DynamicScenario._addDynamicRequirement"),
     "_invokeInner": ("src/scenic/core/dynamics/scenarios.py", "DynamicScenario._invokeInner"),
+    "_runSubBehavior": ("src/scenic/core/dynamics/invocables.py", "Invocable._runSubBehavior"),
+    "runTryInterrupt": ("src/scenic/core/dynamics/invocables.py", "runTryInterrupt"),
+    "DynamicScenario.__init__": ("src/scenic/core/dynamics/scenarios.py", "DynamicScenario.__init__"),
     "Scenario._makeSceneFromSample": ("src/scenic/core/scenarios.py", "Scenario._makeSceneFromSample"),
     "Simulation._run": ("src/scenic/core/simulators.py", "Simulation._run"),
     "Simulation.__init__": ("src/scenic/core/simulators.py", "Simulation.__init__"),
@@ -481,7 +496,38 @@ def program(placement, fsrc, n, d=0, s=0):
                        + main + "    compose:\n" + w(d) + "        do Sub()\n"), "Main"
     if placement == "dyn-top":
         return head + main + "    compose:\n" + w(s) + f"        require {fsrc}\n" + w(n - 1) + gen, "Main"
+    forever = "        while True:\n            wait\n"
+    if placement == "sub-open":       # the sub-scenario never ends by itself: stopped when the simulation ends (maxSteps)
+        return head + ("scenario Sub():\n    setup:\n" f"        require {fsrc}\n    compose:\n" + forever
+                       + main + "    compose:\n" + w(d) + "        do Sub()\n"), "Main"
+    if placement == "sub-for":        # … stopped by the time limit of `do … for n steps` (at the start of the step after its last)
+        return head + ("scenario Sub():\n    setup:\n" f"        require {fsrc}\n    compose:\n" + forever
+                       + main + "    compose:\n" + w(d) + f"        do Sub() for {n} steps\n"), "Main"
+    if placement == "dyn-open":
+        return head + ("scenario Sub():\n    compose:\n" + w(s) + f"        require {fsrc}\n" + forever
+                       + main + "    compose:\n" + w(d) + "        do Sub()\n"), "Main"
     raise ValueError(placement)
+
+
+def program_multi(inits, adds, n, d, top):
+    """a scenario running n steps with the requirements `inits` in its setup block and `adds` = [(step, source)]
+    executed by its compose block; `top`: it is the top-level scenario, else a sub-scenario started after d steps"""
+    head = f"import {TAB} as vt\n"
+    ind = " " * 8
+    body = ""
+    for t in range(n):
+        for (s_, src) in adds:
+            if s_ == t:
+                body += f"{ind}require {src}\n"
+        if t < n - 1:
+            body += f"{ind}wait\n"
+    body += f"{ind}if False:\n{ind}    wait\n"
+    setup = "".join(f"{ind}require {src}\n" for src in inits)
+    if top:
+        return head + "scenario Main():\n    setup:\n" + ind + "ego = new Object\n" + setup + "    compose:\n" + body, "Main"
+    sub = "scenario Sub():\n" + ("    setup:\n" + setup if setup else "") + "    compose:\n" + body
+    main = "scenario Main():\n    setup:\n" + ind + "ego = new Object\n    compose:\n" + "".join(ind + "wait\n" for _ in range(d)) + ind + "do Sub()\n"
+    return head + sub + main, "Main"
 
 
 _SIM = None
@@ -537,21 +583,39 @@ def fmt_outcome(o):
     return o[0] if len(o) == 1 else f"{o[0]}{o[1]}" if o[0] in ("acc", "rej") else f"crash:{o[1]}"
 
 
+SUB_LIKE = ("sub", "sub-open", "sub-for")          # requirement in the setup block of a sub-scenario started after d steps
+DYN_LIKE = ("dyn", "dyn-open")                     # requirement executed by the compose block of such a sub-scenario after s steps
+
+
+def offset_of(placement, d, s):
+    return (d if placement in SUB_LIKE + DYN_LIKE + ("multi-sub",) else 0) + (s if placement in DYN_LIKE + ("dyn-top",) else 0)
+
+
+def max_steps_of(placement, total):
+    """`top`, `sub-open`, `dyn-open` stop through maxSteps (which must be >= 1: maxSteps=0 means "no limit"); the others
+    stop by themselves"""
+    return total - 1 if placement in ("top", "sub-open", "dyn-open") else total + 3
+
+
 def e2e_case(placement, ts, n, d, s, codes, junk):
     """run the program for the given trace codes; returns list of outcomes, or ('compile-error', cls)"""
     if placement == "top" and n < 2:
         placement = "setup"
-    code, scen = program(placement, formula_source(ts), n, d, s)
+    if placement.startswith("multi"):
+        inits, adds = ts
+        code, scen = program_multi([formula_source(t) for t in inits], [(k, formula_source(t)) for k, t in adds], n, d,
+                                   placement == "multi-top")
+    else:
+        code, scen = program(placement, formula_source(ts), n, d, s)
     try:
         sc = compile_program(code, scen)
     except Exception as e:
         return ("compile-error", type(e).__name__ + ": " + str(e)[:80])
-    off = (d if placement in ("sub", "dyn") else 0) + (s if placement in ("dyn", "dyn-top") else 0)
+    off = offset_of(placement, d, s)
     total = off + n
-    # `top` stops through maxSteps (which must be >= 1: maxSteps=0 means "no limit"); the others stop by themselves
-    max_steps = total - 1 if placement == "top" else total + 3
+    max_steps = max_steps_of(placement, total)
     if max_steps < 1:
-        return ("harness-error", "top placement needs n >= 2")
+        return ("harness-error", f"{placement} placement needs at least two steps")
     out = []
     for x in codes:
         rows = junk[:off] + rows_of_code(x, n) + [[False, False]] * 4
@@ -762,7 +826,7 @@ def syntax_level(ctx, st, fs):
         if ok and d == 0:
             noise.add(c)
     # the worked examples and the precedence facts themselves
-    fixed = ["A and always B", "( always A ) implies B", "always A implies B", "always ( A implies next A )",
+    fixed = [tk for _, _, tk, _ in __import__("translate.ltlgram", fromlist=["x"]).DOC_EXAMPLES] + ["A and always B", "( always A ) implies B", "always A implies B", "always ( A implies next A )",
              "( A until B ) or ( always A and not B )", "A until B until A", "A implies B implies A",
              "not A and B", "A or always B or A", "always A until B", "A implies B until A", "( always A ) and B"]
     strings = sorted({s for vs in cand.values() for s in vs} | noise | {tuple(s.split()) for s in fixed})
@@ -797,38 +861,70 @@ def syntax_level(ctx, st, fs):
             if r not in (want, "error") and r is not None and not r.startswith("crash"):
                 st.precedence_surprises.append((want, untok(s), r))
     ctx.extra["syntax"] = {"strings": len(strings), "formulas_with_a_string": len(denote), "inexpressible": inexpressible}
-    # documented example that does not parse (known finding / fix)
-    r = parsed.get(tuple("( always A ) implies B".split()))
-    if r == "error":
-        st.doc_example_fails = True
+    # the worked examples of the reference must parse to the reading the text states
+    from translate import ltlgram
+    for rel, ex, tk, tree in ltlgram.DOC_EXAMPLES:
+        r = parsed.get(tuple(tk.split()))
+        if r is None:
+            r = real_parse(untok(tk.split()))
+        ctx.case(("doc-example", ex))
+        if r != tree:
+            st.doc_failures.append((rel, ex, untok(tk.split()), tree, r))
     return denote
+
+
+PLACEMENTS = ("top", "setup", "sub", "dyn", "top-after", "dyn-top", "sub-open", "sub-for", "dyn-open")
+OP_OF = {"top": "run", "setup": "run", "top-after": "run", "sub": "rts", "sub-open": "rts", "sub-for": "rts",
+         "dyn": "dyn", "dyn-top": "dyn", "dyn-open": "dyn"}
+
+
+def expected_outcome(placement, p, off, n, last_verdict, step_reject):
+    """the simulator outcome that one entry `p` of the driver's output predicts (see Driver/C11.lean)"""
+    end = off + n if placement == "sub-for" else off + n - 1      # `do … for n steps` stops the scenario one step later
+    if OP_OF.get(placement) == "run":
+        if p[0] == "S":
+            return ("scene",)
+        p = p[1:]
+    if p == "A":
+        return ("acc", end)
+    if p == "X":
+        return ("crash", "RuntimeError")
+    t = int(p[1:])
+    if placement == "sub-for" and t == n - 1 and last_verdict not in step_reject:
+        return ("rej", end)           # rejected by `_stop`, which `do … for` calls at the start of the next step
+    return ("rej", t + off)
 
 
 def end_to_end(ctx, st, fs, denote):
     """(C2 + S) simulator outcome vs the Lean rule and vs the independent semantics"""
     rng = random.Random(ctx.rng.getrandbits(32))
-    n_quick = 4
     base = [f for f in fs if depth_of(f) <= 1 and f in denote]
     rest = [f for f in denote if depth_of(f) >= 2]
     rng.shuffle(rest)
-    # formulas that discriminate the three defects / the theorems' fragments are always included
-    special = [("Next", ("Until", ("Atom", 0), ("Atom", 1))), ("Until", ("Atom", 0), ("Or", ("Eventually", ("Atom", 1)), ("Atom", 0))),
-               ("Always", ("Implies", ("Atom", 0), ("Next", ("Atom", 1)))), ("Or", ("Until", ("Atom", 0), ("Atom", 1)), ("Always", ("And", ("Atom", 0), ("Not", ("Atom", 1))))),
-               ("Always", ("Atom", 0)), ("Eventually", ("Atom", 0)), ("Until", ("Atom", 0), ("Atom", 1)), ("Not", ("Next", ("Until", ("Atom", 0), ("Atom", 1))))]
+    # formulas that discriminate the rv_ltl defects / the theorems' fragments / the run-time paths are always included
+    A, B = ("Atom", 0), ("Atom", 1)
+    special = [("Next", ("Until", A, B)), ("Until", A, ("Or", ("Eventually", B), A)),
+               ("Always", ("Implies", A, ("Next", B))), ("Or", ("Until", A, B), ("Always", ("And", A, ("Not", B)))),
+               ("Always", A), ("Eventually", A), ("Until", A, B), ("Not", ("Next", ("Until", A, B))),
+               ("Implies", A, B), ("Implies", ("Always", A), B), ("Next", A), ("Eventually", ("Always", A)),
+               ("And", ("Implies", A, B), ("Or", ("Not", A), B))]
     special = [f for f in special if f in denote or _try_denote(st, denote, f)]
-    chosen = list(dict.fromkeys(special + base + rest[: budget(ctx, st, "sim", 70, 1200)]))
+    chosen = list(dict.fromkeys(special + base + rest[: budget(ctx, st, "sim", 30, 1200)]))
     jobs, meta = [], []
     for f in chosen:
         strs = denote[f]
-        for placement in ("top", "setup", "sub", "dyn", "top-after", "dyn-top"):
-            if placement in ("top-after", "dyn-top") and rng.random() > (0.15 if f not in special else 1.0):
+        for placement in PLACEMENTS:
+            rare = placement in ("top-after", "dyn-top", "sub-open", "sub-for", "dyn-open")
+            if rare and rng.random() > (0.15 if f not in special else 0.5):
                 continue
             ts = rng.choice(strs[:4])
-            n = rng.choice([4, 3, 3, 2, 1]) if f not in special else rng.choice([3, 4])
+            n = rng.choice([4, 3, 3, 2, 1]) if f not in special else rng.choice([3, 3, 3, 4])
             if placement == "top-after":
                 n = max(n, 2)
-            d = rng.choice([0, 1, 2]) if placement in ("sub", "dyn") else 0
-            s = rng.choice([0, 0, 1, 2]) if placement in ("dyn", "dyn-top") else 0
+            d = rng.choice([0, 1, 2]) if placement in SUB_LIKE + DYN_LIKE else 0
+            s = rng.choice([0, 0, 1, 2]) if placement in DYN_LIKE + ("dyn-top",) else 0
+            if max_steps_of(placement, offset_of(placement, d, s) + n) < 1:
+                n = 2
             ntr = 4 ** n
             codes = list(range(ntr)) if ntr <= 64 or ctx.tier == "thorough" or f in special else sorted(rng.sample(range(ntr), 48))
             junk = [[rng.random() < 0.5, rng.random() < 0.5] for _ in range(d + s)]
@@ -837,16 +933,22 @@ def end_to_end(ctx, st, fs, denote):
     per = max(1, len(jobs) // 64)
     results = pool_map(ctx, _w_e2e, chunks(jobs, per))
     # Lean predictions
-    lines = []
+    lines, vlines = [], []
     for (placement, ts, n, d, s, codes, junk), f in zip(jobs, meta):
-        op = "dyn" if placement in ("dyn", "dyn-top") else "rts" if placement == "sub" else "run"
-        lines.append(f"C11 {op} 2 {n} {tokstr(f)}")
+        if placement == "top" and n < 2:
+            placement = "setup"
+        lines.append(f"C11 {OP_OF[placement]} 2 {n} {tokstr(f)}")
+        vlines.append(f"C11 mon 2 {n} {tokstr(f)}")
     lean = ctx.driver(lines) if st.driver_ok else [None] * len(lines)
+    leanv = ctx.driver(vlines) if st.driver_ok else [None] * len(lines)
     flags = classify(ctx, st, list(dict.fromkeys(meta)))
+    step_reject = [str(v) for v in st.rule.get("stepReject", [1])]
     bad = 0
-    for job, f, res, pred in zip(jobs, meta, results, lean):
+    for job, f, res, pred, verd in zip(jobs, meta, results, lean, leanv):
         placement, ts, n, d, s, codes, junk = job
-        off = (d if placement in ("sub", "dyn") else 0) + (s if placement in ("dyn", "dyn-top") else 0)
+        if placement == "top" and n < 2:
+            placement = "setup"
+        off = offset_of(placement, d, s)
         ctx.case(("e2e", placement, ts, n, d, s), nontrivial=f[0] != "Atom")
         ctx.hist("placement", placement)
         ctx.hist("run_length", n)
@@ -858,6 +960,7 @@ def end_to_end(ctx, st, fs, denote):
             continue
         ctx.evaluations += len(codes) - 1
         predl = pred.split(" ") if pred is not None else None
+        end = off + n if placement == "sub-for" else off + n - 1
         for x, o in zip(codes, res):
             rows = rows_of_code(x, n)
             truth = sat_py(f, rows)
@@ -865,16 +968,10 @@ def end_to_end(ctx, st, fs, denote):
             # ---- (C2) model vs code
             if predl is not None:
                 p = predl[x]
-                if placement in ("dyn", "dyn-top", "sub"):
-                    exp = (("acc", off + n - 1) if p == "A" else ("crash", "RuntimeError") if p == "X"
-                           else ("rej", int(p[1:]) + off))
-                else:
-                    scene_checked = placement in ("top", "setup", "top-after")
-                    exp = (("scene",) if (p[0] == "S" and scene_checked) else
-                           ("acc", off + n - 1) if p[1:] == "A" else ("rej", int(p[2:]) + off))
-                known_crash = (placement == "dyn-top" and o == ("crash", "AttributeError") and not st.rule.get("dynMonitored")
-                               and not is_prop(f))
-                if o != exp and not known_crash:
+                exp = expected_outcome(placement, p, off, n, verd[x * n + n - 1], step_reject)
+                if exp == ("scene",) and OP_OF[placement] == "run" and placement not in ("top", "setup", "top-after"):
+                    exp = None
+                if exp is not None and o != exp:
                     bad += 1
                     if bad <= 3:
                         ctx.broken("correspondence", "acceptance rule model (run) vs Simulator.simulate",
@@ -883,24 +980,14 @@ def end_to_end(ctx, st, fs, denote):
             # ---- (S) the property itself
             rep = {"kind": "e2e", "placement": placement, "formula": untok(ts), "tree": tokstr(f), "n": n, "d": d, "s": s,
                    "rows": _bits(junk[:off] + rows), "expected": "accepted" if truth else "rejected"}
+            where = f"{placement}:{untok(ts)}"
             if o[0] == "crash":
-                if o[1] == "RuntimeError" and is_prop(f) and "Implies" in tokstr(f) and placement in ("sub", "dyn", "dyn-top"):
-                    _report(ctx, st, "nontemporal-implies-runtime-crash",
-                            f"`require {untok(ts)}` (no temporal operator) executed while the simulation runs ({placement}) raised "
-                            "RuntimeError: propositions.Implies has no evaluate()", rep)
-                elif placement == "dyn-top" and o[1] == "AttributeError":
-                    _report(ctx, st, "compose-require-toplevel-crash",
-                            f"a temporal `require` executed in the compose block of the top-level scenario raised {o[1]} "
-                            f"(`{untok(ts)}`)", rep)
-                else:
-                    _report(ctx, st, f"crash:{o[1]}:{placement}", f"`require {untok(ts)}` ({placement}) crashed with {o[1]}", rep)
+                _report(ctx, st, f"crash:{o[1]}:{where}", f"`require {untok(ts)}` ({placement}, in force for {n} steps from step "
+                        f"{off}) on rows {rep['rows']} crashed with {o[1]}", rep)
                 continue
             accepted = o[0] == "acc"
             if accepted != truth:
-                if placement == "dyn" and accepted and not is_prop(f):
-                    _report(ctx, st, "compose-require-unmonitored",
-                            f"`require {untok(ts)}` executed inside a compose block was accepted on a trace that violates it", rep)
-                elif not flags[f][0]:
+                if not flags[f][0]:
                     _report(ctx, st, "rv_ltl-nested-until",
                             f"`require {untok(ts)}` ({placement}): simulator {'accepted' if accepted else 'rejected'} rows {rep['rows']} "
                             f"but the trace {'violates' if accepted else 'satisfies'} the formula (until below a temporal operator)", rep)
@@ -909,19 +996,129 @@ def end_to_end(ctx, st, fs, denote):
                             f"`require {untok(ts)}` ({placement}) rejected rows {rep['rows']} which satisfy the formula "
                             "(until with a temporal right operand)", rep)
                 else:
-                    _report(ctx, st, f"accept-mismatch:{placement}:{untok(ts)}",
+                    _report(ctx, st, f"accept-mismatch:{where}",
                             f"`require {untok(ts)}` ({placement}, {n} steps from step {off}): simulator "
                             f"{fmt_outcome(o)} on rows {rep['rows']}, the formula is {'satisfied' if truth else 'violated'}", rep)
+            elif accepted and o[1] != end:
+                _report(ctx, st, f"end-time:{where}", f"`require {untok(ts)}` ({placement}): the simulation ended in step {o[1]}, "
+                        f"expected step {end}", dict(rep, expected=f"accepted, ending in step {end}"))
             elif not accepted and o[0] == "rej" and o[1] is not None and o[1] - off + 1 < n:
                 # rejected early: no continuation of the steps seen so far may satisfy the formula
                 t = o[1] - off
-                if _hopeful(f, rows[: t + 1], n):
+                if t < 0 or _hopeful(f, rows[: t + 1], n):
                     key = ("rv_ltl-nested-until" if not flags[f][0] else "rv_ltl-until-premature-false" if not flags[f][1]
-                           else f"early-reject:{placement}:{untok(ts)}")
+                           else f"early-reject:{where}")
                     _report(ctx, st, key, f"`require {untok(ts)}` ({placement}) rejected in step {o[1]} although a continuation "
                             f"of rows {_bits(rows[:t+1])} satisfies the formula",
                             dict(rep, expected=f"no rejection in step {o[1]}: some continuation of rows {_bits(rows[:t+1])} satisfies the formula"))
+            elif not accepted and o[0] == "rej" and o[1] is not None and o[1] > end:
+                _report(ctx, st, f"late-reject:{where}", f"`require {untok(ts)}` ({placement}) rejected in step {o[1]}, after the end "
+                        f"(step {end}) of its scenario", dict(rep, expected=f"rejected by step {end}"))
+            elif o[0] == "scene" and placement not in ("top", "setup", "top-after"):
+                _report(ctx, st, f"scene-reject:{where}", f"`require {untok(ts)}` ({placement}) made scene generation fail", rep)
     return chosen
+
+
+def multi_level(ctx, st, denote):
+    """(C + S) scenarios with several temporal requirements — some in the setup block, some executed by the compose block
+    in different steps — vs the Lean machine `simulate` (driver `sim`) and vs the semantics of each requirement on its
+    own window"""
+    rng = random.Random(ctx.rng.getrandbits(32))
+    temporal = [f for f in denote if not is_prop(f) and depth_of(f) <= 2]
+    if len(temporal) < 4:
+        return
+    temporal.sort(key=tokstr)
+    small = [f for f in temporal if depth_of(f) == 1]
+    jobs, meta = [], []
+    for _ in range(budget(ctx, st, "sim", 36, 600)):
+        n = rng.choice([2, 3, 3])
+        top = rng.random() < 0.4
+        d = 0 if top else rng.choice([0, 1, 2])
+        k = rng.choice([2, 2, 3])
+        reqs = []
+        for _k in range(k):
+            f = rng.choice(small if rng.random() < 0.6 else temporal)
+            start = None if rng.random() < 0.4 else rng.randrange(n)
+            reqs.append((start, f, list(rng.choice(denote[f][:3]))))
+        if all(r[0] is None for r in reqs):
+            reqs[-1] = (rng.randrange(n),) + reqs[-1][1:]
+        inits = [r for r in reqs if r[0] is None]
+        adds = sorted([r for r in reqs if r[0] is not None], key=lambda r: r[0])
+        ntr = 4 ** n
+        codes = list(range(ntr))
+        junk = [[rng.random() < 0.5, rng.random() < 0.5] for _ in range(d)]
+        placement = "multi-top" if top else "multi-sub"
+        jobs.append((placement, ([r[2] for r in inits], [(r[0], r[2]) for r in adds]), n, d, 0, codes, junk))
+        meta.append((inits, adds))
+    results = pool_map(ctx, _w_e2e, chunks(jobs, max(1, len(jobs) // 32)))
+    lines = []
+    for (placement, _, n, d, s, codes, junk), (inits, adds) in zip(jobs, meta):
+        segs = [f"i {tokstr(r[1])}" for r in inits] + [f"{r[0]} {tokstr(r[1])}" for r in adds]
+        lines.append(f"C11 sim 2 {n} " + " ; ".join(segs))
+    lean = ctx.driver(lines) if st.driver_ok else [None] * len(lines)
+    # requirements in the setup block of the top-level scenario also take part in the initial-scene check
+    scene_lines = sorted({f"C11 run 2 {job[2]} {tokstr(r[1])}" for job, (inits, _) in zip(jobs, meta) if job[0] == "multi-top" for r in inits})
+    scene_out = dict(zip(scene_lines, ctx.driver(scene_lines))) if st.driver_ok and scene_lines else {}
+    flags = classify(ctx, st, list(dict.fromkeys(r[1] for m in meta for part in m for r in part)))
+    bad = 0
+    for job, (inits, adds), res, pred in zip(jobs, meta, results, lean):
+        placement, srcs, n, d, _, codes, junk = job
+        off = d if placement == "multi-sub" else 0
+        scene_pred = [scene_out[f"C11 run 2 {n} {tokstr(r[1])}"].split(" ") for r in inits] if placement == "multi-top" and scene_out else []
+        desc = "; ".join([f"setup: require {untok(r[2])}" for r in inits] + [f"step {r[0]}: require {untok(r[2])}" for r in adds])
+        ctx.case(("multi", placement, desc, n, d))
+        ctx.hist("placement", placement)
+        ctx.hist("multi_requirements", len(inits) + len(adds))
+        if isinstance(res, tuple) and res and res[0] in ("compile-error", "harness-error"):
+            if res[0] == "harness-error":
+                raise Infra(f"multi-requirement harness failed: {res[1]}")
+            st.candidates.append(("compile-error", inits[0][1] if inits else adds[0][1], (placement, ["…"], n, d, 0), res[1] + " :: " + desc))
+            continue
+        ctx.evaluations += len(codes) - 1
+        predl = pred.split(" ") if pred is not None else None
+        reqs = [(0, r[1], r[2]) for r in inits] + [(r[0], r[1], r[2]) for r in adds]
+        exact = all(flags[f][0] for _, f, _ in reqs)
+        final = all(flags[f][1] for _, f, _ in reqs)
+        for x, o in zip(codes, res):
+            rows = rows_of_code(x, n)
+            ctx.hist("e2e_outcome", o[0] if o[0] != "crash" else "crash:" + o[1])
+            rep = {"kind": "multi", "placement": placement, "inits": [untok(r[2]) for r in inits],
+                   "adds": [[r[0], untok(r[2])] for r in adds], "n": n, "d": d, "rows": _bits(junk[:off] + rows)}
+            if predl is not None:
+                p = predl[x]
+                exp = ("acc", off + n - 1) if p == "A" else ("rej", int(p[1:]) + off)
+                if any(sp[x][0] == "S" for sp in scene_pred):
+                    exp = ("scene",)
+                if o != exp:
+                    bad += 1
+                    if bad <= 3:
+                        ctx.broken("correspondence", "scenario machine (simulate) vs Simulator.simulate",
+                                   f"{placement} [{desc}] n={n} d={d} rows={_bits(rows)}: lean={p} real={fmt_outcome(o)}")
+            if o == ("scene",):
+                # legitimate only when a setup-block requirement of the top-level scenario is hopeless in step 0
+                if placement != "multi-top" or all(_hopeful(r[1], rows[:1], n) for r in inits):
+                    _report(ctx, st, f"scene-reject:{placement}:{desc}", f"scenario with [{desc}] ({placement}): scene generation failed on rows "
+                            f"{rep['rows']} although every setup-block requirement can still be satisfied", dict(rep, expected="a scene"))
+                continue
+            if o[0] == "crash":
+                _report(ctx, st, f"crash:{o[1]}:{placement}:{desc}", f"scenario with [{desc}] ({placement}) crashed with {o[1]} on rows {rep['rows']}",
+                        dict(rep, expected="accepted or rejected"))
+                continue
+            truth = all(sat_py(f, rows[st_:]) for st_, f, _ in reqs)
+            accepted = o[0] == "acc"
+            rep["expected"] = "accepted" if truth else "rejected"
+            if accepted != truth:
+                key = f"multi-mismatch:{placement}:{desc}" if exact and (final or accepted) else (
+                    "rv_ltl-nested-until" if not exact else "rv_ltl-until-premature-false")
+                _report(ctx, st, key, f"scenario with [{desc}] ({placement}, {n} steps from step {off}): simulator {fmt_outcome(o)} on rows "
+                        f"{rep['rows']}, but {'every requirement is satisfied on its window' if truth else 'some requirement is violated on its window'}", rep)
+            elif not accepted and o[0] == "rej" and o[1] is not None and o[1] - off + 1 < n and final:
+                t = o[1] - off
+                culprits = [1 for st_, f, _ in reqs if st_ <= t and not _hopeful(f, rows[st_: t + 1], n - st_)]
+                if t < 0 or not culprits:
+                    _report(ctx, st, f"multi-early-reject:{placement}:{desc}", f"scenario with [{desc}] ({placement}) rejected in step {o[1]} although "
+                            f"every requirement in force can still be satisfied by a continuation of rows {_bits(rows[:t+1])}",
+                            dict(rep, expected=f"no rejection in step {o[1]}"))
 
 
 def _try_denote(st, denote, f):
@@ -964,53 +1161,73 @@ def _report(ctx, st, key, what, rep):
         st.nviol += 1
 
 
+VALS = {"1": 1, "0": 0, "2": 2, "e": "", "s": "x", "l": [], "L": [0], "f": 0.0, "N": None}
+
+
 def truthiness_stream(ctx, st):
-    """atoms returning non-Boolean values: only their truth value may matter"""
-    vals = {"1": 1, "0": 0, "2": 2, "e": "", "s": "x", "l": [], "L": [0], "f": 0.0, "N": None}
+    """atoms returning non-Boolean values (None included): only their truth value may matter"""
+    vals = VALS
     rng = random.Random(ctx.rng.getrandbits(32))
-    forms = [(("Always", ("Atom", 0)), "always A"), (("Eventually", ("Atom", 0)), "eventually A"),
-             (("Until", ("Atom", 0), ("Atom", 1)), "A until B"), (("Always", ("Or", ("Atom", 0), ("Next", ("Atom", 1)))), "always A or next B")]
+    A, B = ("Atom", 0), ("Atom", 1)
+    forms = [(("Always", A), "always A"), (("Eventually", A), "eventually A"), (("Until", A, B), "A until B"),
+             (("Always", ("Or", A, ("Next", B))), "always A or next B"), (("Next", ("Not", A)), "next not A")]
     for f, s in forms:
-        code, scen = program("top", formula_source(s.split()), 3)
-        try:
-            sc = compile_program(code, scen)
-        except Exception as e:
-            continue
-        for _ in range(budget(ctx, st, "sim", 25, 200)):
-            ks = [[rng.choice(list(vals)) for _ in range(2)] for _ in range(3)]
-            rows = [[vals[k] for k in r] for r in ks]
-            truth = sat_py(f, [[bool(v) for v in r] for r in rows])
-            o = run_once(sc, rows + [[False, False]] * 3, 2)
-            ctx.case(("truthiness", s, ks))
-            has_none = any(k == "N" for r in ks for k in r)
-            rep = {"kind": "truthiness", "formula": s, "keys": ks, "expected": "accepted" if truth else "rejected"}
-            if o[0] == "crash":
-                key = "atom-none-crash" if has_none and o[1].endswith("IndexError") else f"atom-value-crash:{o[1]}"
-                _report(ctx, st, key, f"`require {s}` with atom values {ks} crashed with {o[1]} (a None-valued atom is dropped "
-                        "from the monitor's history)" if has_none else f"`require {s}` with atom values {ks} crashed with {o[1]}", rep)
-            elif (o[0] == "acc") != truth:
-                key = "atom-none-crash" if has_none else f"truthiness-mismatch:{s}"
-                _report(ctx, st, key, f"`require {s}` with atom values {ks}: {fmt_outcome(o)}, expected {rep['expected']}", rep)
-    # the same for non-temporal requirements evaluated on the spot at run time (setup block of a sub-scenario)
-    for f, s in [(("And", ("Atom", 0), ("Atom", 1)), "A and B"), (("Or", ("Atom", 0), ("Atom", 1)), "A or B"),
-                 (("Not", ("Atom", 0)), "not A"), (("And", ("Not", ("Atom", 0)), ("Or", ("Atom", 1), ("Atom", 0))), "not A and (B or A)")]:
-        code, scen = program("sub", formula_source(s.replace("(", "( ").replace(")", " )").split()), 1, 0, 0)
-        try:
-            sc = compile_program(code, scen)
-        except Exception:
-            continue
-        for _ in range(budget(ctx, st, "sim", 25, 200)):
-            ks = [[rng.choice(list(vals)) for _ in range(2)]]
-            rows = [[vals[k] for k in r] for r in ks]
-            truth = sat_py(f, [[bool(v) for v in r] for r in rows])
-            o = run_once(sc, rows + [[False, False]] * 3, 3)
-            ctx.case(("truthiness-runtime", s, ks))
-            rep = {"kind": "truthiness", "placement": "sub", "formula": s, "keys": ks, "expected": "accepted" if truth else "rejected"}
-            if o[0] == "crash" or (o[0] == "acc") != truth:
-                bitwise = f[0] in ("And", "Or") or "and" in s
-                key = "runtime-and-or-bitwise" if bitwise and (o[0] != "crash" or o[1] == "TypeError") else f"runtime-truthiness:{s}:{fmt_outcome(o)}"
-                _report(ctx, st, key, f"`require {s}` executed at run time with atom values {ks}: {fmt_outcome(o)}, expected "
-                        f"{rep['expected']} (operands are combined with bitwise & / |)", rep)
+        for placement in ("top", "dyn"):
+            code, scen = program(placement, formula_source(s.split()), 3)
+            try:
+                sc = compile_program(code, scen)
+            except Exception:
+                continue
+            for _ in range(budget(ctx, st, "sim", 15, 120)):
+                ks = [[rng.choice(list(vals)) for _ in range(2)] for _ in range(3)]
+                rows = [[vals[k] for k in r] for r in ks]
+                truth = sat_py(f, [[bool(v) for v in r] for r in rows])
+                o = run_once(sc, rows + [[False, False]] * 3, max_steps_of(placement, 3))
+                ctx.case(("truthiness", placement, s, ks))
+                ctx.hist("atom_values", "with None" if any(k == "N" for r in ks for k in r) else "without None")
+                rep = {"kind": "truthiness", "placement": placement, "formula": s, "keys": ks, "expected": "accepted" if truth else "rejected"}
+                shown = ",".join("".join(r) for r in ks)
+                if o[0] == "crash":
+                    _report(ctx, st, f"atom-value-crash:{o[1]}:{placement}:{s}:{shown}", f"`require {s}` ({placement}) with atom values "
+                            f"{rows} crashed with {o[1]}", rep)
+                elif (o[0] == "acc") != truth:
+                    _report(ctx, st, f"truthiness-mismatch:{placement}:{s}:{shown}", f"`require {s}` ({placement}) with atom values {rows}: "
+                            f"{fmt_outcome(o)}, expected {rep['expected']}", rep)
+    # the same for non-temporal requirements evaluated on the spot at run time (setup block of a sub-scenario, compose block),
+    # also against the Lean model of `evaluate()` (driver `immv`)
+    forms2 = [(("And", A, B), "A and B"), (("Or", A, B), "A or B"), (("Not", A), "not A"), (("Implies", A, B), "A implies B"),
+              (("And", ("Not", A), ("Or", B, A)), "not A and (B or A)"), (("Implies", ("Or", A, B), ("And", B, A)), "(A or B) implies (B and A)"),
+              (("Implies", A, ("Implies", B, A)), "A implies (B implies A)"), (("Or", ("Implies", A, B), ("Not", B)), "(A implies B) or not B")]
+    lines, cases = [], []
+    for f, s in forms2:
+        for placement in ("sub", "dyn"):
+            code, scen = program(placement, formula_source(s.replace("(", "( ").replace(")", " )").split()), 1, 0, 0)
+            try:
+                sc = compile_program(code, scen)
+            except Exception as e:
+                st.candidates.append(("compile-error", f, (placement, s.replace("(", "( ").replace(")", " )").split(), 1, 0, 0), type(e).__name__))
+                continue
+            for _ in range(budget(ctx, st, "sim", 12, 100)):
+                ks = [[rng.choice(list(vals)) for _ in range(2)]]
+                rows = [[vals[k] for k in r] for r in ks]
+                truth = sat_py(f, [[bool(v) for v in r] for r in rows])
+                o = run_once(sc, rows + [[False, False]] * 3, 3)
+                ctx.case(("truthiness-runtime", placement, s, ks))
+                rep = {"kind": "truthiness", "placement": placement, "formula": s, "keys": ks, "expected": "accepted" if truth else "rejected"}
+                lines.append(f"C11 immv {''.join(ks[0])} {tokstr(f)}")
+                cases.append((s, placement, ks, o))
+                if o[0] == "crash" or (o[0] == "acc") != truth:
+                    _report(ctx, st, f"runtime-truthiness:{placement}:{s}:{''.join(ks[0])}", f"`require {s}` executed at run time ({placement}) "
+                            f"with atom values {rows[0]}: {fmt_outcome(o)}, expected {rep['expected']}", rep)
+    if st.driver_ok and lines:
+        bad = 0
+        for (s, placement, ks, o), p in zip(cases, ctx.driver(lines)):
+            exp = ("acc", 0) if p == "A" else ("rej", 0) if p == "R0" else ("crash", "RuntimeError")
+            if o != exp:
+                bad += 1
+                if bad <= 2:
+                    ctx.broken("correspondence", "evaluate() model (evalPy) vs veneer.require at run time",
+                               f"{placement} `{s}` values {ks[0]}: lean={p} real={fmt_outcome(o)}")
 
 
 def confirm_monitor_witnesses(ctx, st, denote):
@@ -1066,7 +1283,7 @@ def run(ctx):
     st.reported = set()
     st.candidates = []
     st.precedence_surprises = []
-    st.doc_example_fails = False
+    st.doc_failures = []
     st.cls_reported = st.sat_reported = False
     st.rule = {}
     st.shift = True
@@ -1079,6 +1296,7 @@ def run(ctx):
         ctx.extra["extracted_rule"] = d["rule"]
         ctx.extra["rv_ltl_until_shift"] = d["untilShift"]
     except TemplateMismatch as e:
+        ctx.gen_restore("LTL")        # never build against a stale Gen file of an earlier run
         ctx.escalated.append(f"translator tie lost (ltl): {e}")
         st.scopes |= {"monitor", "sim"}
         ctx.notes.append(f"translator tie lost for the monitor/rule data: {e}; relying on correspondence at thorough budget")
@@ -1086,6 +1304,7 @@ def run(ctx):
         g = ltlgram.extract()
         ctx.gen("LTLGram", ltlgram.to_lean(g))
     except TemplateMismatch as e:
+        ctx.gen_restore("LTLGram")
         ctx.escalated.append(f"translator tie lost (ltlgram): {e}")
         st.scopes |= {"syntax"}
         ctx.notes.append(f"translator tie lost for the grammar data: {e}; relying on correspondence at thorough budget")
@@ -1096,7 +1315,7 @@ def run(ctx):
         st.driver_ok = rc == 0
     if ctx.tier == "thorough" and pr.build_ok:
         ctx.leanchecker(["ScenicModel.Props.C11", "ScenicModel.Props.C11Sem", "ScenicModel.Props.C11Final",
-                         "ScenicModel.Props.C11Syntax"])
+                         "ScenicModel.Props.C11Scenario", "ScenicModel.Props.C11Syntax"])
     import scenic  # noqa: F401
     _quiet()
     use_fresh_parser(ctx)
@@ -1116,13 +1335,12 @@ def run(ctx):
     denote = timed("syntax_level", syntax_level, ctx, st, fs)
     timed("confirm_witnesses", confirm_monitor_witnesses, ctx, st, denote)   # smallest counterexamples first
     timed("end_to_end", end_to_end, ctx, st, fs, denote)
+    timed("multi_level", multi_level, ctx, st, denote)
     timed("truthiness", truthiness_stream, ctx, st)
     ctx.extra["phase_seconds"] = phases
-    if st.doc_example_fails:
-        _report(ctx, st, "grammar-group-before-implies",
-                "the documented example `require (always A) implies B` (docs/reference/statements.rst) is a syntax error: "
-                "the look-ahead closing a parenthesised temporal group does not admit `implies`",
-                {"kind": "parse", "formula": "(always A) implies B", "expected": "Implies Always Atom 0 Atom 1"})
+    for rel, ex, src, tree, r in st.doc_failures:
+        _report(ctx, st, f"doc-example:{src}", f"the documented example `{ex}` ({rel}) {'is a syntax error' if r == 'error' else 'parses as ' + r}; "
+                f"the text states the reading {tree}", {"kind": "parse", "formula": src, "expected": tree})
     for want, s, r in st.precedence_surprises[:3]:
         _report(ctx, st, f"precedence:{s}", f"`{s}` was printed for {want} but parses as {r}",
                 {"kind": "parse", "formula": s, "expected": want})
@@ -1138,13 +1356,14 @@ def run(ctx):
         elif kind == "monitor-crash":
             _report(ctx, st, f"monitor-crash:{tokstr(f)}", f"PropositionMonitor crashed on {tokstr(f)}",
                     {"kind": "monitor", "tree": tokstr(f)})
-    ctx.extra["known_finding_witnesses"] = sorted(k for k in st.reported)
+    ctx.extra["reported_keys"] = sorted(k for k in st.reported)
     if st.suppressed:
         ctx.notes.append(f"{st.suppressed} further distinct failing inputs were found and not written out (only the first {MAX_VIOLATIONS} are)")
     ctx.resolve_brokens(st.found)
 
 
 def replay(ctx, path):
+    """re-executes the recorded input against $SCENIC_REPO; exit code 1 when the recorded failure shows again, 0 otherwise"""
     body = json.load(open(path))
     rep = body.get("replay", body)
     import scenic  # noqa: F401
@@ -1153,33 +1372,62 @@ def replay(ctx, path):
     use_fresh_parser(ctx)
     install_table_module()
     kind = rep.get("kind")
+    failed = None
     if kind == "parse":
-        print(f"require {rep['formula']}  ->  {real_parse(rep['formula'])}   (expected: {rep.get('expected')})")
-    elif kind == "e2e":
-        ts = rep["formula"].replace("(", " ( ").replace(")", " ) ").split()
-        code, scen = program(rep["placement"], formula_source(ts), rep["n"], rep["d"], rep["s"])
+        got = real_parse(rep["formula"].replace("(", " ( ").replace(")", " ) "))
+        print(f"require {rep['formula']}  ->  {got}   (expected: {rep.get('expected')})")
+        failed = got != rep.get("expected") and rep.get("expected") not in ("tree or syntax error",)
+        if rep.get("expected") == "tree or syntax error":
+            failed = got.startswith("crash")
+    elif kind in ("e2e", "multi"):
+        if kind == "multi":
+            tk = lambda x: x.replace("(", " ( ").replace(")", " ) ").split()
+            code, scen = program_multi([formula_source(tk(x)) for x in rep["inits"]],
+                                       [(k, formula_source(tk(x))) for k, x in rep["adds"]], rep["n"], rep["d"], rep["placement"] == "multi-top")
+            off = rep["d"] if rep["placement"] == "multi-sub" else 0
+        else:
+            ts = rep["formula"].replace("(", " ( ").replace(")", " ) ").split()
+            code, scen = program(rep["placement"], formula_source(ts), rep["n"], rep["d"], rep["s"])
+            off = offset_of(rep["placement"], rep["d"], rep["s"])
         print(code)
         rows = [[c == "1" for c in r] for r in rep["rows"].split(",")] if rep["rows"] else []
         try:
             sc = compile_program(code, scen)
         except Exception as e:
             print("does not compile:", type(e).__name__, e)
-            return 0
-        off = (rep["d"] if rep["placement"] in ("sub", "dyn") else 0) + (rep["s"] if rep["placement"] in ("dyn", "dyn-top") else 0)
+            print("REPRODUCED" if rep.get("expected") == "compiles" else "not reproduced")
+            return 1 if rep.get("expected") == "compiles" else 0
         total = off + rep["n"]
-        ms = total - 1 if rep["placement"] != "top-after" else total + 3
-        o = run_once(sc, rows + [[False, False]] * 4, ms)
-        print(f"atom rows (step: A B) {rep['rows']}; requirement in force from step {off} for {rep['n']} steps")
-        print(f"simulator: {fmt_outcome(o)}    finite-trace semantics: {rep.get('expected')}")
+        o = run_once(sc, rows + [[False, False]] * 4, max_steps_of(rep["placement"], total))
+        print(f"atom rows (step: A B) {rep['rows']}; requirement(s) in force from step {off}, scenario of {rep['n']} steps")
+        print(f"simulator: {fmt_outcome(o)}    expected: {rep.get('expected')}")
+        exp = rep.get("expected", "")
+        if exp in ("accepted", "rejected"):
+            failed = o[0] == "crash" or (o[0] == "acc") != (exp == "accepted")
+        elif exp.startswith("no rejection in step"):
+            failed = o[0] == "rej" and str(o[1]) == exp.split()[4].rstrip(":")
+        elif exp.startswith("accepted, ending in step"):
+            failed = o != ("acc", int(exp.split()[-1]))
+        elif exp.startswith("rejected by step"):
+            failed = not (o[0] == "rej" and o[1] is not None and o[1] <= int(exp.split()[-1]))
+        elif exp in ("a scene", "accepted or rejected", "compiles"):
+            failed = o[0] in ("scene", "crash") if exp != "compiles" else False
     elif kind == "truthiness":
-        vals = {"1": 1, "0": 0, "2": 2, "e": "", "s": "x", "l": [], "L": [0], "f": 0.0, "N": None}
+        vals = VALS
         pl = rep.get("placement", "top")
         toks_ = rep["formula"].replace("(", " ( ").replace(")", " ) ").split()
-        code, scen = program(pl, formula_source(toks_), 3 if pl == "top" else 1)
+        n = len(rep["keys"])
+        code, scen = program(pl, formula_source(toks_), n, 0, 0)
         sc = compile_program(code, scen)
         rows = [[vals[k] for k in r] for r in rep["keys"]]
         print(code, "atom values per step:", rows)
-        print("simulator:", fmt_outcome(run_once(sc, rows + [[False, False]] * 3, 2 if pl == "top" else 3)), "  expected:", rep.get("expected"))
+        o = run_once(sc, rows + [[False, False]] * 3, max_steps_of(pl, n) if n > 1 else 3)
+        print("simulator:", fmt_outcome(o), "  expected:", rep.get("expected"))
+        failed = o[0] == "crash" or (o[0] == "acc") != (rep.get("expected") == "accepted")
     else:
         print(json.dumps(rep, indent=1)[:3000])
-    return 0
+    if failed is None:
+        print("(nothing to re-execute for this record)")
+        return 0
+    print("REPRODUCED: the recorded failure shows on this tree" if failed else "not reproduced: this tree behaves as expected")
+    return 1 if failed else 0
